@@ -10,7 +10,7 @@ TR_INVS = ['Placement', 'ExactlyOnce', 'ClosedWhenInvocationEnds', 'SameThread',
 TRACE_CONSTS = dict(Idents=set(range(1, 13)), Fns=tlc.Lit('{}'), Lines=tlc.Lit('{}'), TpSets=tlc.Lit('{}'),
                     MaxEvents=1000000, MaxDepth=100000, MaxGen=100000, TopOnly=False)
 
-LINE_MARKS = [('a', 'f_first'), ('a', 'f_call'), ('a', 'f_plain'), ('a', 'f_last'), ('a', 'g_first'), ('a', 'g_last'),
+LINE_MARKS = [('a', 'f_first'), ('a', 'f_second'), ('a', 'f_third'), ('a', 'f_second'), ('a', 'f_call'), ('a', 'f_plain'), ('a', 'f_last'), ('a', 'g_first'), ('a', 'g_last'),
               ('b', 'f_first'), ('b', 'f_last'), ('b', 'g_last'), ('a', 'gen_first'), ('a', 'gen_yield')]
 METHODS = [('a', 'f'), ('a', 'g'), ('b', 'f'), ('b', 'g'), ('a', 'gen'), ('a', 'nosuch')]
 
@@ -56,11 +56,14 @@ def random_plan(rng):
     return plan
 
 
-def run_scenarios(c, rng, wd, n, span_bias, kind, tagbase, capture=False):
+def run_scenarios(c, rng, wd, n, span_bias, kind, tagbase, capture=False, curated=()):
     traces, meta = [], []
-    for i in range(n):
-        tps = random_tps(rng, span_bias, capture)
-        plan = random_plan(rng)
+    for i in range(n + len(curated)):
+        if i < len(curated):
+            tps, plan = curated[i]
+        else:
+            tps = random_tps(rng, span_bias, capture)
+            plan = random_plan(rng)
         sc = D.Scenario(wd, '%s%d' % (tagbase, i), tps)
         try:
             ref = sc.reference(plan)
